@@ -7,7 +7,7 @@ for n in m1_findcp_gt m2_inclen_ge m3_opt_nolength m4_fill_budget m5_reset_dropp
          h1_comments h2_rename h3_reformat h4_kwargs_order; do
   sh "$HERE/run_tie.sh" C10 $n 2>/dev/null | grep "^$n:" | cut -c1-400 >> "$HERE/RESULTS.txt"
 done
-for n in m5_reset_dropped m7_incip_maxlevel h2_rename; do
+for n in m5_reset_dropped m7_incip_maxlevel m9_save_swapped h2_rename; do
   sh "$HERE/run_tie.sh" C15 $n 2>/dev/null | grep "^$n:" | sed 's/^/C15 /' | cut -c1-400 >> "$HERE/RESULTS.txt"
 done
 # restore the generated files of the worktree from the unchanged /repo
